@@ -17,10 +17,11 @@ import (
 const heapLimit = 1200 << 20
 
 var (
-	guardMu     sync.Mutex
-	guardCancel func()
-	guardOnce   sync.Once
-	guardHits   atomic.Int64
+	guardMu      sync.Mutex
+	guardCancel  func()
+	guardOnce    sync.Once
+	guardHits    atomic.Int64
+	guardTripped atomic.Bool
 )
 
 func guardSet(cancel func()) {
@@ -39,12 +40,17 @@ func guardSet(cancel func()) {
 				guardMu.Unlock()
 				if c != nil {
 					guardHits.Add(1)
+					guardTripped.Store(true)
 					c()
 				}
-				debug.FreeOSMemory()
 			}
 		}()
 	})
+	if guardTripped.Swap(false) {
+		// the evaluation that was cancelled has returned: its memory is garbage now.
+		// Collect it before arming again, or the next (innocent) evaluation is cancelled.
+		debug.FreeOSMemory()
+	}
 	guardMu.Lock()
 	guardCancel = cancel
 	guardMu.Unlock()
